@@ -294,6 +294,18 @@ def check_config(ctx, F, tag, cfg):
             ctx.ob("C10.R2.fused", str(ty) + tag, loc(im["span"]), False, "per-path-effects", "FusedIterator type without a rule")
     ctx.floor("fused-iterators" + tag, 13)
 
+    # ---------------- R5 conditional advance is atomic: RunIter::advance_if changes the iterator only after `advance(..)` said yes
+    from effects import mutation_sites
+    ai = F.body("rl_vector::RunIter::<'a>::advance_if")
+    sites = mutation_sites(ai, 1, by_ref=True)
+    unguarded = []
+    for bi, k, d, sp in sites:
+        fs = facts_at(ai, bi)
+        if not any(f[0] == "bool" and f[2] is True and core(f[1])[0] == "call" and core(f[1])[1].endswith("FnMut::call_mut") for f in fs):
+            unguarded.append((k, d, loc(sp)))
+    ctx.ob("C10.R5.advance-if-atomic", ai.name + tag, loc(ai.raw["span"]), len(sites) >= 4 and not unguarded, "per-path-effects+guard",
+           "%d stores/&mut uses of the iterator in advance_if; not dominated by `advance(..) == true`: %s (positioned iterators -- predecessor -- refuse a run and must find the iterator unchanged)" % (len(sites), unguarded))
+
     # ---------------- R3 nth clamp (C09 restricted to iterator entry points) + twins
     entries, an = c09.run_analysis(F)
     for fn in sorted(entries):
